@@ -288,7 +288,7 @@ PROPS = {
     ),
     "C09": dict(
         proof_modules=["KsVerif.Proofs.C09", "KsVerif.Proofs.C10"],
-        families=["sched.match.redis", "sched.match.http", "sched.match.http10", "sched.match.amqp", "sched.match.kafka", "sched.excl", "http2.conv", "http2.order", "http.conv"],
+        families=["sched.match.redis", "sched.match.http", "sched.match.http10", "sched.match.amqp", "sched.match.kafka", "sched.excl", "http2.conv", "http2.order", "http.conv", "match.multi"],
         rule="http2.conv: pairing by stream id on interleaved HTTP/2 streams with control frames (incl. a graceful GOAWAY) between the "
              "frames of a stream - one item per completed stream, nothing left in the matcher (see C04); "
              "sched.excl: with one half parked AT a yield point inside the matcher's locked region, the other half must block "
